@@ -24,7 +24,7 @@ CHECKS = {
  "C12": ("exhaustive enumeration: every registry row x 10 columns against an independent re-parse of the IANA text file and a pinned golden copy, all 65536 ids x 4 lookup routes; proptest-generated name perturbations",
          "Registry content, id lookups, derived sizes and name-token consistency are finite and enumerated completely; name lookup is probed with generated near-miss strings.",
          "Trusts scripts/tls-ciphersuites.txt as the specification and the golden copy taken from the pinned tree; enum variants compared via Debug names.", "4/C12"),
- "C17": ("exhaustive enumeration of every value of 18 registry newtypes against IANA tables typed into the harness",
+ "C17": ("exhaustive enumeration of every value of 18 registry newtypes against IANA tables typed into the harness, and of the text 31 composite structures print for their registry-typed fields",
          "All named constants, Display/Debug of every integer of each domain, all conversions over all u16/u8 values, SignatureScheme split and key_bits for all 65536 groups.",
          "Trusts the harness's IANA tables; unknown new identifiers printed for unlisted values are tolerated (so adding constants upstream is not an alarm).", "4/C17"),
 }
@@ -33,7 +33,7 @@ CHECKS.update({
  "C01": ("proptest-generated inputs (byte soup, every model encoder with 0..3 corruptions, allocation-dense shapes, asset prefixes) through ~120 entry points under a counting allocator, panic capture and a watchdog; generated operation histories on the defragmenter; libFuzzer campaigns in the thorough tier",
          "Every public parsing entry point is called on every generated input with generated extra arguments; results are formatted; a panic (debug assertions and overflow checks are on), an allocation beyond 64 KiB + K*len, or a stall is a violation. Histories of up to 40 (thorough 700) operations drive one TlsRecordsParser to the 10 MiB cap. Absence of panics cannot be established by sampling; the evidence reports how much was explored.",
          "Termination is observed through a watchdog, not proved; allocation is counted per calling thread.", "4/C01"),
- "C06": ("metamorphic relation P(b) vs P(b++x) over 36 self-delimiting parsers with proptest-generated structures, corruptions and suffixes; pointer-provenance oracle over every reachable slice (hand-written visitor); defragmenter provenance over generated histories",
+ "C06": ("metamorphic relation P(b) vs P(b++x) over 40 self-delimiting parsers with proptest-generated structures, corruptions and suffixes; pointer-provenance oracle over every reachable slice (hand-written visitor); defragmenter provenance over generated histories",
          "Appending bytes must not change value or outcome class and must extend the remainder; every non-empty slice reachable from a returned value must lie inside the consumed part of the caller's buffer (or, for defragmented results, inside the internal buffer exposed by the hook).",
          "Values compared after conversion to model types; empty slices carry no provenance.", "4/C06"),
  "C07": ("model-based stateful testing: proptest-generated operation histories interpreted against a reference model (accumulate then one-shot parse) and a shadow fresh parser; targeted split / refusal / size-cap generators",
@@ -45,7 +45,7 @@ CHECKS.update({
  "C10": ("exhaustive enumeration of DTLS declared lengths x content types x cut points + proptest-generated DTLS records, handshake headers over full 24-bit ranges and datagrams, against reference header decoders and the model encoder",
          "13-byte header fields (epoch / 48-bit sequence split), cap, Incomplete contract with exact Needed, fragment predicate and header fields verbatim, supported bodies, multi-record datagrams.",
          "Quick tier samples the cuts beyond the record end for lengths > 512 (full in thorough).", "4/C10"),
- "C11": ("exhaustive enumeration of every value of 38 enumerated wire fields inside generated well-formed templates",
+ "C11": ("exhaustive enumeration of every value of 41 enumerated wire fields inside generated well-formed templates (templates vary with the value; RFC-meaningful neighbours), plus a joint sweep of the three record-header fields",
          "Each field's whole integer domain is written into a well-formed structure and read back from the parsed value, for k template variants.",
          "ServerHello legacy version excluded as in the statement.", "4/C11"),
  "C13": ("proptest-generated DH / EC / signature values with an RFC reference encoder, exhaustive curve-type and named-group sweep, reference decoder for parse_content_and_signature",
